@@ -74,11 +74,12 @@ from types import TracebackType
 from typing import BinaryIO
 
 from dulwich.object_format import SHA1
-from dulwich.objects import ObjectID
+from dulwich.objects import ZERO_SHA, ObjectID
 from dulwich.refs import (
     SYMREF,
     Ref,
     RefsContainer,
+    SymrefLoop,
 )
 
 if sys.version_info >= (3, 11):
@@ -995,17 +996,7 @@ class ReftableRefsContainer(RefsContainer):
 
     def allkeys(self) -> set[Ref]:
         """Return set of all ref names."""
-        refs = self._read_all_tables()
-        result = set(refs.keys())
-
-        # For symbolic refs, also include their targets as implicit refs
-        for refname, (value_type, value) in refs.items():
-            if value_type == REF_VALUE_SYMREF:
-                # Add the target ref as an implicit ref
-                target = value
-                result.add(Ref(target))
-
-        return result
+        return set(self._read_all_tables().keys())
 
     def follow(self, name: Ref) -> tuple[list[Ref], ObjectID | None]:
         """Follow a reference name.
@@ -1017,11 +1008,13 @@ class ReftableRefsContainer(RefsContainer):
         current = name
         refs = self._read_all_tables()
 
-        for _ in range(MAX_SYMREF_DEPTH):
+        for depth in range(MAX_SYMREF_DEPTH + 1):
             refnames.append(current)
             ref_data = refs.get(current)
             if ref_data is None:
                 raise KeyError(current)
+            if depth == MAX_SYMREF_DEPTH:
+                break
 
             value_type, value = ref_data
             if value_type == REF_VALUE_REF:
@@ -1038,7 +1031,7 @@ class ReftableRefsContainer(RefsContainer):
             raise ValueError(f"Unknown ref value type: {value_type}")
 
         # Too many levels of indirection
-        raise ValueError(f"Too many levels of symbolic ref indirection for {name!r}")
+        raise SymrefLoop(name, MAX_SYMREF_DEPTH + 1)
 
     def __getitem__(self, name: Ref) -> ObjectID:
         """Get the SHA1 for a reference name.
@@ -1049,6 +1042,16 @@ class ReftableRefsContainer(RefsContainer):
         if sha is None:
             raise KeyError(name)
         return sha
+
+    def read_ref(self, refname: Ref) -> bytes | None:
+        """Read a reference without following any references.
+
+        Returns: The contents of the ref, or None if it does not exist.
+        """
+        try:
+            return self.read_loose_ref(refname)
+        except KeyError:
+            return None
 
     def read_loose_ref(self, name: Ref) -> bytes:
         """Read a reference value without following symbolic refs.
@@ -1174,14 +1177,11 @@ class ReftableRefsContainer(RefsContainer):
         """Atomically set a ref if it currently equals old_ref."""
         # For now, implement a simple non-atomic version
         # TODO: Implement proper atomic compare-and-swap
-        try:
-            current = self.read_loose_ref(name)
-        except KeyError:
-            current = None
-
-        old_ref_bytes = bytes(old_ref) if old_ref else None
-        if current != old_ref_bytes:
-            return False
+        # old_ref None: unconditional; the zero id: the ref must not exist
+        if old_ref is not None:
+            current = self.read_ref(name)
+            if (current if current is not None else ZERO_SHA) != bytes(old_ref):
+                return False
 
         # Update ref
         self._write_ref_update(bytes(name), REF_VALUE_REF, bytes(new_ref))
@@ -1217,14 +1217,11 @@ class ReftableRefsContainer(RefsContainer):
     ) -> bool:
         """Remove a ref if it equals old_ref."""
         # For deletion, we need to use the internal method since set_if_equals requires new_ref
-        try:
-            current = self.read_loose_ref(name)
-        except KeyError:
-            current = None
-
-        old_ref_bytes = bytes(old_ref) if old_ref else None
-        if current != old_ref_bytes:
-            return False
+        # old_ref None: unconditional; the zero id: the ref must not exist
+        if old_ref is not None:
+            current = self.read_ref(name)
+            if (current if current is not None else ZERO_SHA) != bytes(old_ref):
+                return False
 
         self._write_ref_update(bytes(name), REF_VALUE_DELETE, b"")
         return True
